@@ -10,8 +10,9 @@ use std::collections::BTreeMap;
 pub enum Op {
     Insert(u16),
     Delete(u16),
-    /// union with a second filter built from these keys (same config/hasher, own RNG)
-    Union(Vec<u16>),
+    /// union with a second filter built from these keys (same config/hasher, own RNG); for the cuckoo
+    /// filter the first `.1` of them are deleted again from the operand before the union (holes)
+    Union(Vec<u16>, u8),
     Clear,
 }
 
@@ -29,7 +30,7 @@ fn op_strategy(union_max: usize) -> impl Strategy<Value = Op> {
     prop_oneof![
         12 => any::<u16>().prop_map(Op::Insert),
         4 => any::<u16>().prop_map(Op::Delete),
-        2 => prop::collection::vec(any::<u16>(), 0..union_max).prop_map(Op::Union),
+        2 => (prop::collection::vec(any::<u16>(), 0..union_max), prop_oneof![3 => Just(0u8), 2 => 0u8..8]).prop_map(|(k, d)| Op::Union(k, d)),
         1 => Just(Op::Clear),
     ]
 }
@@ -62,6 +63,7 @@ impl Check for C01 {
         let mut model: BTreeMap<u64, u32> = BTreeMap::new();
         let (mut n_ok, mut n_fail_ins, mut n_fail_union, mut n_union_ok_nonempty, mut n_evict, mut n_del_shared) = (0u32, 0u32, 0u32, 0u32, 0u32, 0u32);
         let mut bloom_okfalse_new = false;
+        let mut n_other_holes = 0u32;
         for (step, op) in c.ops.iter().enumerate() {
             let what;
             match op {
@@ -103,14 +105,26 @@ impl Check for C01 {
                     }
                     what = format!("delete({})", k);
                 }
-                Op::Union(keys) => {
+                Op::Union(keys, del) => {
                     let mut other = AnyFilter::new(&c.cfg, c.hk, &c.rng2);
                     let mut om: BTreeMap<u64, u32> = BTreeMap::new();
+                    let mut inserted = vec![];
                     for i in keys {
                         let k = uni[idx(*i, uni.len())];
                         if other.insert(k).is_ok() {
                             *om.entry(k).or_insert(0) += 1;
+                            inserted.push(k);
                         }
+                    }
+                    if kind == "cuckoo" {
+                        // delete the oldest inserts again: leaves holes in front of later fingerprints
+                        for &k in inserted.iter().take(*del as usize) {
+                            if other.delete(k) == Some(true) {
+                                *om.get_mut(&k).unwrap() -= 1;
+                                n_other_holes += 1;
+                            }
+                        }
+                        om.retain(|_, v| *v > 0);
                     }
                     let nonempty = model.values().any(|&v| v > 0);
                     match f.union(&other) {
@@ -137,7 +151,7 @@ impl Check for C01 {
                     let opname = match op {
                         Op::Insert(_) => "insert",
                         Op::Delete(_) => "delete",
-                        Op::Union(_) => "union",
+                        Op::Union(..) => "union",
                         Op::Clear => "clear",
                     };
                     return fail(
@@ -159,6 +173,7 @@ impl Check for C01 {
             .class_if(n_union_ok_nonempty > 0, "union_ok_into_nonempty")
             .class_if(n_evict > 0, "cuckoo_eviction")
             .class_if(n_del_shared > 0, "cuckoo_delete_with_others_remaining")
+            .class_if(n_other_holes > 0, "union_operand_with_deletes")
             .class_if(bloom_okfalse_new, "bloom_okfalse_for_new_key");
         info.inner_evals = c.ops.len() as u64;
         Verdict::Pass(info)
